@@ -221,6 +221,10 @@ def boundary_cfgs():
         ("u", 0, [[("d", ex)]], [(0, 0, 3, 0), ("-", 0, 0, "-")]),
         # no rules at all
         ("u", 1, [[("f", ex)]], []),
+        # a rule WITHOUT action in front of rules that would also match (first match wins: REFUSED, nothing forwarded);
+        # once conditional, once unconditional in the middle
+        ("ut", 0, [[("d", ex)], [("d", [b"com"])]], [(0, 0, 0, "-"), (1, 0, 0, 0), ("-", 0, 0, 1)]),
+        ("u", 0, [[("d", ex)]], [(0, 1, 0, 0), ("-", 0, 0, "-"), ("-", 0, 0, 0)]),
     ]
 
 
